@@ -162,7 +162,7 @@ func init() {
 			// one worker: the interning log belongs to one process, and the programs inside a case already run concurrently
 			// generated programs may create cyclic terms or explode (ISO: undefined); only a race report is attributable to C14
 			c.crashDiscard = func(status, detail string) bool { return !strings.Contains(detail, "DATA RACE") }
-			traces := c.recordTracesInit("isoconc", gen, replayOpts{timeout: 120e9, workers: 4})
+			traces := c.recordTracesInit("isoconc", gen, replayOpts{timeout: 150e9, workers: 4})
 			c.validateTraces("isoconc", "IsolationTrace", "IsolationTrace.cfg", traces, traceOpts{batches: 4})
 			c.exhaustive = false
 		},
